@@ -36,7 +36,8 @@ GH = {"g_nerr": "int", "g_errline": "int", "g_pos": "Dict[str, int]", "g_added":
 def id_list_contract(key, start, target_kind):
     toks, norm, valid0, pid0, n = clauses(start)
     global LETS
-    LETS = {"tok_valid": ("j", "bool", valid0("j")), "tok_pid": ("j", "str", pid0("j")), "tok": ("j", "str", f"{toks}[j]")}
+    LETS = {"tok_valid": ("j", "bool", valid0("j")), "tok_pid": ("j", "str", pid0("j")), "tok": ("j", "str", f"{toks}[j]"),
+            "tok_n": ("j", "int", f"len({toks})")}
     valid = lambda j: f"tok_valid({j})"
     pid = lambda j: f"tok_pid({j})"
     wit = "g_src[g_pos[x]]"
@@ -83,4 +84,150 @@ register(Contract(
     loops={0: Loop(index="idx", invariant=inv + [
         "forall_val(lambda k: (k in document_pragmas) == old(k in document_pragmas) and document_pragmas[k] is old(document_pragmas[k]))",
     ])},
+))
+
+# ------------------------------------------------------------------------------------------------ disable-num-lines
+register(Contract(
+    key=PX + "__handle_disable_num_lines_parse", properties=["C11"],
+    ghost={"g_nerr": "int", "g_errline": "int"},
+    calls={"log_pragma_failure": LOG},
+    requires=["0 <= after_command_index and after_command_index <= len(command_data)"],
+    ensures=[
+        # a count that is missing, not an integer, or < 1, or a missing id list: exactly one error on the pragma's line, and no range
+        "implies(not result[0], g_nerr == old(g_nerr) + 1 and g_errline == actual_line_number)",
+        "implies(result[0], g_nerr == old(g_nerr) and result[2] is not None and result[2] >= 1 "
+        "and after_command_index <= result[1] and result[1] < len(command_data))",
+    ],
+    raises=[], modifies=["g_nerr", "g_errline"],
+))
+
+toks2, norm2, valid2, pid2, n2, sound2, complete2, inv2 = id_list_contract(None, "after_number_index", "range")
+# the id list starts where the parse of the count ended: the abbreviations are defined at the loop (after_number_index is a local)
+LETS2 = {k: v + ("loop0",) for k, v in LETS.items()}
+n2 = "tok_n(0)"
+RANGES = "document_pragma_ranges"
+LAST = f"{RANGES}[len({RANGES}) - 1]"
+register(Contract(
+    key=PX + "__handle_disable_num_lines", properties=P,
+    ghost=dict(GH, g_after="int", g_count="int", g_ok="bool"), lets=LETS2,
+    calls={"log_pragma_failure": LOG, "processed_ids.add": SET_ADD,
+           "PragmaExtension.__handle_disable_num_lines_parse": (PX + "__handle_disable_num_lines_parse",
+                                                                ["g_ok = result[0]", "g_after = result[1]", "g_count = result[2] if result[0] else 0"])},
+    types={"processed_ids": "Set[str]", "all_ids": "Dict[str, FoundPlugin]", "document_pragma_ranges": "List[Tuple[int, int, Set[str]]]"},
+    requires=["is_empty(g_pos) and is_empty(g_added) and is_empty(g_src)", "0 <= after_command_index and after_command_index <= len(command_data)"],
+    ensures=[
+        # earlier ranges are never touched; at most one range is appended
+        f"forall(lambda q: {RANGES}[q] == old({RANGES}[q]), 0, old(len({RANGES})))",
+        f"len({RANGES}) == old(len({RANGES})) + (1 if (g_ok and exists(lambda j: {valid2('j')}, 0, {n2})) else 0)",
+        # a malformed pragma suppresses nothing
+        f"implies(not g_ok, len({RANGES}) == old(len({RANGES})) and g_nerr > old(g_nerr))",
+        # the new range covers exactly the following N lines: [line + 1, line + N]
+        f"implies(len({RANGES}) > old(len({RANGES})), {LAST}[0] == actual_line_number + 1 and {LAST}[1] == actual_line_number + g_count and g_count >= 1)",
+        f"implies(len({RANGES}) > old(len({RANGES})), " + complete2.format(S=f"{LAST}[2]", hi=n2) + ")",
+        f"implies(len({RANGES}) > old(len({RANGES})), " + sound2.format(S=f"{LAST}[2]", hi=n2) + ")",
+    ],
+    raises=[],
+    modifies=[f"{RANGES}.$list", "g_nerr", "g_errline"],
+    loops={0: Loop(index="idx", invariant=inv2 + [
+        f"len({RANGES}) == old(len({RANGES}))", f"forall(lambda q: {RANGES}[q] == old({RANGES}[q]), 0, old(len({RANGES})))",
+        "g_ok and after_number_index == g_after and count_value == g_count and g_count >= 1", "tok_n(0) == len(ids_to_disable)",
+        f"ids_to_disable is not {RANGES}",
+    ])},
+))
+
+import z3 as _z3
+from pyvc.spec import spec_fn
+from pyvc.sym import V as _V, vbool as _vbool
+
+_plo = _z3.Function("pragma_line_ok", _z3.IntSort(), _z3.BoolSort(), _z3.BoolSort())
+
+
+@spec_fn("pragma_line_ok")
+def pragma_line_ok(ex, st, args):
+    """pragma_line_ok(line, positive_key): what look_for_pragmas guarantees about a stored line (opaque; defined below)"""
+    line, pos = args
+    return _vbool(_plo(_V.s(line.z), ex.truthy(st, pos)))
+
+
+# definition: the line is long enough for prefix + title + suffix, and after the prefix and any blanks there is room for 'pyml '
+_LA = "{L}[(4 if {POS} else 5):]"
+PRAGMA_LINE_OK_DEF = ("pragma_line_ok({L}, {POS}) == (len({L}) >= (4 if {POS} else 5) + 5 + 3 and "
+                      "forall(lambda m: implies(forall(lambda k: is_ws(" + _LA + ", k), 0, m) and (m == len(" + _LA + ") or not is_ws(" + _LA + ", m)), "
+                      "m + 5 <= len(" + _LA + ")), 0, len(" + _LA + ") + 1))")
+LA = "pragma_lines[next_line_number][(4 if next_line_number > 0 else 5):]"
+register(Contract(
+    key=PX + "compile_single_pragma", properties=["C11"],
+    ghost={"g_nerr": "int", "g_errline": "int", "g_kind": "int"},
+    calls={"log_pragma_failure": LOG,
+           "PragmaExtension.__handle_disable_next_line": (PX + "__handle_disable_next_line", ["g_kind = 1"]),
+           "PragmaExtension.__handle_disable_num_lines": (PX + "__handle_disable_num_lines", ["g_kind = 2"])},
+    types={"all_ids": "Dict[str, FoundPlugin]", "document_pragmas": "Dict[int, Set[str]]", "pragma_lines": "Dict[int, str]",
+           "document_pragma_ranges": "List[Tuple[int, int, Set[str]]]"},
+    # stored by look_for_pragmas: the key's sign tells the prefix, the line starts with that prefix and (ignoring case and trailing blanks) ends with -->
+    requires=["next_line_number in pragma_lines", "next_line_number != 0", "g_kind == 0",
+              "pragma_line_ok(pragma_lines[next_line_number], next_line_number > 0)"],
+    definitions=[PRAGMA_LINE_OK_DEF.format(L="pragma_lines[next_line_number]", POS="next_line_number > 0")],
+    ensures=[
+        # an unknown or missing command is reported and suppresses nothing
+        "implies(g_kind == 0, g_nerr == old(g_nerr) + 1 and g_errline == (next_line_number if next_line_number > 0 else -next_line_number))",
+        "implies(g_kind == 0, len(document_pragma_ranges) == old(len(document_pragma_ranges)) and "
+        "forall_val(lambda k: (k in document_pragmas) == old(k in document_pragmas)))",
+        "implies(g_kind == 1, len(document_pragma_ranges) == old(len(document_pragma_ranges)))",
+        "implies(g_kind == 2, forall_val(lambda k: (k in document_pragmas) == old(k in document_pragmas)))",
+    ],
+    raises=[],
+    modifies=["document_pragmas.$dict", "document_pragma_ranges.$list", "g_nerr", "g_errline", "g_kind"],
+))
+
+
+# ------------------------------------------------------------------------------------------------ the manager side
+from pyvc.spec import REGISTRY as _REG
+_REG.pop(PM + "compile_pragmas", None)
+register(Contract(
+    key=PM + "compile_pragmas", properties=["C11", "C12"],
+    ghost={"g_compiled": "Set[int]", "g_ids_ok": "bool", "g_nerr": "int", "g_errline": "int", "g_allids": "Any"},
+    types={"pragma_lines": "Dict[int, str]", "self.__all_ids": "Dict[str, FoundPlugin]"},
+    calls={"PragmaExtension.compile_single_pragma": (PX + "compile_single_pragma",
+                                                     ["g_compiled.add(next_line_number)", "g_ids_ok = g_ids_ok and (all_ids is g_allids)"]),
+           "self.log_pragma_failure": LOG},
+    requires=["is_empty(g_compiled)", "g_ids_ok", "g_allids is self.__all_ids",
+              "forall_val(lambda k: implies(k in pragma_lines, k != 0 and pragma_line_ok(pragma_lines[k], k > 0)))"],
+    ensures=[
+        # every pragma line of the document is compiled
+        # (keys_seq is the sequence of keys the loop iterates: a duplicate-free enumeration of the dictionary's keys)
+        "forall(lambda j: keys_seq[j] in g_compiled, 0, len(keys_seq))", "len(keys_seq) == old(len(pragma_lines))",
+        # identifiers are resolved against ALL registered rules (enabled or not): what one rule's pragma does never depends on which other rules are enabled
+        "g_ids_ok",
+    ],
+    raises=[],
+    modifies=["self.__document_pragmas.$dict", "self.__document_pragma_ranges.$list", "number_of_pragma_failures", "$presentation_state"],
+    loops={0: Loop(index="idx", seq_name="keys_seq",
+                   frozen_iter="pragma_lines is the map held by the pragma token; compile_single_pragma only reads it",
+                   invariant=["g_ids_ok", "forall(lambda j: keys_seq[j] in g_compiled, 0, idx)",
+                              "forall_val(lambda k: (k in pragma_lines) == old(k in pragma_lines))"])},
+))
+
+# ------------------------------------------------------------------------------------------------ detection
+register(Contract(
+    key=PX + "look_for_pragmas", properties=["C11", "C20"],
+    types={"parser_properties.pragma_lines": "Dict[int, str]", "position_marker.line_number": "int"},
+    definitions=[PRAGMA_LINE_OK_DEF.format(L="line_to_parse", POS="True"), PRAGMA_LINE_OK_DEF.format(L="line_to_parse", POS="False")],
+    requires=["position_marker.line_number >= 1"],
+    ensures=[
+        # only a line at the top level (no container, no leading whitespace) that starts with a comment prefix can be a pragma
+        "implies(result, not container_depth and not extracted_whitespace and line_to_parse.startswith('<!--'))",
+        # a detected pragma is stored under +line (prefix <!--) or -line (prefix <!---), nothing else changes
+        "implies(result, forall_val(lambda k: implies(k != position_marker.line_number and k != -position_marker.line_number, "
+        "(k in parser_properties.pragma_lines) == old(k in parser_properties.pragma_lines) and "
+        "parser_properties.pragma_lines[k] is old(parser_properties.pragma_lines[k]))))",
+        "implies(result, (position_marker.line_number in parser_properties.pragma_lines and "
+        "parser_properties.pragma_lines[position_marker.line_number] is line_to_parse and pragma_line_ok(line_to_parse, True)) or "
+        "(-position_marker.line_number in parser_properties.pragma_lines and "
+        "parser_properties.pragma_lines[-position_marker.line_number] is line_to_parse and pragma_line_ok(line_to_parse, False)))",
+        # a line that is not a pragma leaves the map alone
+        "implies(not result, forall_val(lambda k: (k in parser_properties.pragma_lines) == old(k in parser_properties.pragma_lines) and "
+        "parser_properties.pragma_lines[k] is old(parser_properties.pragma_lines[k])))",
+    ],
+    raises=[],
+    modifies=["parser_properties.pragma_lines.$dict"],
 ))
